@@ -85,6 +85,23 @@ def main():
                 print(f"    {p}: {v}")
             sys.stdout.flush()
             results[name] = {"status": status, "verdicts": verdicts}
+            # keep the record inside the seeded directory itself
+            notes = {}
+            try:
+                notes = json.load(open(os.path.join(VERIF, "seeded", "NOTES.json")))
+            except Exception:
+                pass
+            meta["verification_by_harness_author"] = {
+                "procedure": "scratch copy of /repo at the fix commits, `git apply patch.diff`, `go build ./...`, `go test -vet=off -count=1 ./...` "
+                             "(library suite), demonstration copied to demo_path and run with demo_cmd on the patched and on the clean copy, then "
+                             "`VERIF_REPO_OVERRIDE=<patched copy> ./check <ID> quick`" + (" (here: applied to /repo itself and undone with git checkout)" if inplace else ""),
+                "build_ok": rc_build == 0, "library_suite_passes_with_patch": rc_suite == 0,
+                "demo_fails_with_patch": rc_demo != 0, "demo_passes_on_clean_tree": rc_clean == 0,
+                "checks": verdicts,
+            }
+            if name in notes:
+                meta["strengthening_needed"] = notes[name]
+            json.dump(meta, open(os.path.join(sdir, "meta.json"), "w"), indent=1, ensure_ascii=False)
         finally:
             shutil.rmtree(tmp, ignore_errors=True)
     json.dump(results, open(os.path.join(VERIF, "tools", "seeded.last.json"), "w"), indent=1)
